@@ -99,6 +99,8 @@ func streamProto(ctx *Ctx) *Result {
 		close(ch)
 		wg.Wait()
 	}
+	runtime.GOMAXPROCS(old)
+	protoModelCheck(ctx, res)
 	return res
 }
 
@@ -347,6 +349,20 @@ func protoCall(res *Result, ps *protoSrc, api string, steps []rstep, pl scriptPl
 				fail(fmt.Sprintf("dump %x (error %v)", d, derr), fmt.Sprintf("as Parse of the whole input: %x", ps.RefDump))
 			}
 		}
+	}
+
+	if settled {
+		items, n := protoItems(ps.Src, steps)
+		cls := "ok"
+		switch outcome {
+		case "read-error":
+			cls = "readerr"
+		case "lexical-failure", "syntax-errors":
+			cls = "parseerr"
+		case "exec-error", "bind-error":
+			cls = "other"
+		}
+		protoRecord(protoObs{api: api, items: items, nReads: n, ret: cls, reads: u.reads, closes: u.closes, input: input})
 	}
 
 	res.Count("reader.reads-after-eof", u.readsAfterEOF)
